@@ -138,7 +138,9 @@ def stage_p(chk, tier, bindir):
     other, which may hold unflushed events, rotated WAL logs and segments of its own.  Each shard's reads are judged
     against its own instance's predictions exactly like stage R (event types are disjoint per shard)."""
     q = tier == "quick"
-    plans = [{"name": "c01p-cap2k2", "cap": 2, "k": 2, "gen_len": 10, "n_sim": 400, "n_rep": 10 if q else 150}]
+    plans = [{"name": "c01p-cap2k2", "cap": 2, "k": 2, "gen_len": 10, "n_sim": 400, "n_rep": 8 if q else 150}]
+    # lockstep: the same event types, segment labels and WAL log ids on both shards
+    plans.append({"name": "c01p-lock-cap2k2", "cap": 2, "k": 2, "gen_len": 12, "n_sim": 300, "n_rep": 4 if q else 60, "lock": True})
     if not q:
         plans.append({"name": "c01p-cap3k2", "cap": 3, "k": 2, "gen_len": 12, "n_sim": 300, "n_rep": 80})
     return storage.campaign2(chk, "C01", plans, CTXS, bindir, judge, random.Random(core.seed() + 77))
